@@ -235,5 +235,61 @@ def match_d25(case, kind, detail):
     return False
 
 
-MATCHERS = {'D25': match_d25, 'D11': match_d11, 'D20': match_d20, 'D21': lambda c, k, d: match_d21(c, k, d) or match_d21_internal(c, k, d),
+def stale_refs_before(case):
+    """{target path: [referencing Manifests]} of the MANIFEST entries that were stale (size or a checkable digest) before the run"""
+    if 'stale_refs' not in case.meta:
+        files = {p: case.tree.nodes[ino]['data'] for p, ino in case.tree.files()}
+        out = {}
+        for m, ents in pre_manifests(case).items():
+            d = os.path.dirname(m)
+            for e in ents:
+                if e[0] != 'MANIFEST':
+                    continue
+                tgt = OX.norm(d, e[1])
+                data = files.get(tgt)
+                if data is None:
+                    continue
+                if e[2] != len(data) or any(h in OX.HASHLIB_OF and OX.digest(h, data) != v for h, v in e[3].items()):
+                    out.setdefault(tgt, []).append(m)
+        case.meta['stale_refs'] = out
+    return case.meta['stale_refs']
+
+
+def match_d28(case, kind, detail):
+    """sub-directory update; a MANIFEST entry outside the updated directory that was stale before the run and whose target
+    the run did not rewrite (same bytes afterwards, when the post-state is known) stays stale"""
+    upd = [op for op in case.ops if op and op[0] in ('update', 'update_inc')]
+    if not upd or not upd[0][1]:
+        return False                       # whole-tree updates repair stale references
+    upath = upd[0][1]
+    stale = stale_refs_before(case)
+    if not stale:
+        return False
+    post = getattr(case, 'post_files', None)
+
+    def untouched_stale(tgt):
+        if tgt not in stale or OX.under(tgt, upath):
+            return False
+        if post is not None:
+            ino = case.tree.lookup(tgt)
+            return ino is not None and post.get(tgt) == case.tree.nodes[ino]['data']
+        return True
+    if kind == 'exactness':
+        ok = True
+        for p in detail:
+            k = p.split(':', 1)
+            if k[0] != 'manifest-entry-stale' or '->' not in k[1]:
+                return False
+            m, tgt = k[1].split('->', 1)
+            ok = ok and untouched_stale(tgt) and m in stale.get(tgt, [])
+        return ok
+    if kind == 'fresh-verify':
+        if detail[0] == 'err' and detail[1][0] == 'ManifestMismatch':
+            return untouched_stale(detail[1][1])
+        if detail[0] == 'ok' and isinstance(detail[1], list) and len(detail[1]) == 2 and detail[1][1]:
+            return all(untouched_stale(x[0]) for x in detail[1][1])
+    return False
+
+
+MATCHERS = {'D28': match_d28, 'D25': match_d25, 'D11': match_d11, 'D20': match_d20, 'D21': lambda c, k, d: match_d21(c, k, d) or match_d21_internal(c, k, d),
             'D13': match_d13, 'D12': match_d12, 'D8': match_d8, 'D23': match_d23}
